@@ -17,11 +17,11 @@ crates_of() {   # crates whose tests must keep passing, from the paths a diff to
   echo $c | tr ' ' '\n' | paste -sd' ' | awk '{n=split($0,a," "); s=""; for(i=1;i<=n;i+=2){k=a[i]" "a[i+1]; if(!(k in seen)){seen[k]=1; s=s" "k}} print s}'
 }
 demo_crate() {
-  grep "^+++ b/node" $1 | head -1 | sed -E 's#.*node/(libs|components)/([a-z_]+)/.*#\2#' | sed -E 's/^(roles|engine|crypto|network|bft|utils|executor)$/zksync_consensus_\1/; s/^protobuf$/zksync_protobuf/; s/^concurrency$/zksync_concurrency/'
+  grep -E "^\+\+\+ b/node/(libs|components)/" $1 | head -1 | sed -E 's#.*node/(libs|components)/([a-z_]+)/.*#\2#' | sed -E 's/^(roles|engine|crypto|network|bft|utils|executor)$/zksync_consensus_\1/; s/^protobuf$/zksync_protobuf/; s/^concurrency$/zksync_concurrency/'
 }
 CRATES=$(crates_of $SD/patch.diff)
 DC=$(demo_crate $SD/demo.diff)
-NAMES=$(grep -E "^\+\s*(pub )?(async )?fn [a-z0-9_]+\(" $SD/demo.diff | sed -E 's/.*fn ([a-z0-9_]+)\(.*/\1/' | sort -u | paste -sd' ')
+NAMES=$(awk '/^\+\s*#\[(tokio::)?test/ {t=1; next} t && /^\+.*fn [a-z0-9_]+\(/ {match($0, /fn [a-z0-9_]+/); print substr($0, RSTART+3, RLENGTH-3); t=0}' $SD/demo.diff | sort -u | paste -sd' ')
 WT=/tmp/wt_verify_$ID; TGT=/tmp/tgt_verify_$SLOT
 OUT=/verif/seeded/$ID; mkdir -p $OUT
 cp $SD/patch.diff $OUT/patch.diff; cp $SD/demo.diff $OUT/demo.diff; cp $SD/README.md $OUT/README.agent.md 2>/dev/null
